@@ -30,6 +30,54 @@ def canon_real(r):
             "links": sorted(sorted(e2["path"] for e2 in r["fs"] if e2["ino"] == e["ino"]) for e in r["fs"])}
 
 
+def same_path_one(chk, sseed):
+    """hash-seed-dependent queue order: one pool path is queued twice with different sizes (a stale index next to a current one
+    lists the same file; both entries survive in the pool-file *set*, whose iteration order depends on PYTHONHASHSEED).  The
+    server always announces the true size, so the stale entry's attempts are rejected before anything is written.  Every queue
+    order x schedule must give the same tree, error status and error count (seed agent-C15-16: entries whose path was already
+    dequeued are skipped - which of the two is transferred then depends on the order)."""
+    from core.transport import Resp, gen_content
+    rng = random.Random(sseed)
+    size = rng.randint(5, 60)
+    stale = size + rng.choice([-3, -1, 1, 7])
+    path = f"pool/main/a/a_{rng.randint(1, 9)}.deb"
+    others = [f"pool/main/o/o{i}.deb" for i in range(rng.randint(0, 3))]
+    descs = [{"ctor": ["from_path", path, True, False], "adds": [[path, size, None, None, False]], "ignore_errors": False, "pool": True},
+             {"ctor": ["from_path", path, True, False], "adds": [[path, stale, None, None, False]], "ignore_errors": False, "pool": True}]
+    osizes = {}
+    for o in others:
+        osizes[o] = rng.randint(1, 30)
+        descs.append({"ctor": ["from_path", o, True, False], "adds": [[o, osizes[o], None, None, False]], "ignore_errors": False, "pool": True})
+    date = rng.choice(l1.DATES)
+
+    def script(n, tag):
+        return [Resp("ok", announced=n, date=date, data=gen_content(tag, n), chunks=l1.split_chunks(rng, n), tag=tag) for _ in range(25)]
+    scripts = {path: script(size, 5)}
+    for k, o in enumerate(others):
+        scripts[o] = script(osizes[o], 10 + k)
+    results = []
+    for k in range(6):
+        order = list(descs)
+        rng.shuffle(order)
+        if k == 0:
+            order = descs[:2] + descs[2:]
+        elif k == 1:
+            order = [descs[1], descs[0]] + descs[2:]
+        sc = {"descs": order, "fs": [], "scripts": scripts, "sched": rng.randrange(1 << 30), "nthreads": rng.choice([1, 2, 4]), "shared": True}
+        r, files = l1.run_real(sc, chooser=vloop.RandomChooser(rng.randrange(1 << 30)), nthreads=sc["nthreads"])
+        results.append({"tree": sorted((e["path"], e["size"], e["data"].hex() if isinstance(e["data"], bytes) else str(e["data"])) for e in r["fs"]),
+                        "has_errors": r["has_errors"], "errors": r["counters"][6:8]})
+    replay = {"scenario_seed": sseed, "same_path": True, "path": path, "sizes": [size, stale], "others": others}
+    if any(x != results[0] for x in results[1:]):
+        diff = [k for k in results[0] if any(x[k] != results[0][k] for x in results[1:])]
+        chk.violation("same-path:queue-order-dependent", replay,
+                      f"{path} queued with sizes {size} (true) and {stale} (stale): result differs between queue orders/schedules in {diff}: "
+                      f"{[(x['has_errors'], len(x['tree'])) for x in results]}")
+    chk.count("same_path_scenarios")
+    chk.evaluated(("same-path", len(others), stale < size), sample={"same_path": True, "sizes": [size, stale]})
+    chk.traces += 6
+
+
 def shared_one(chk, sseed, fillers=0):
     """the point excluded by `Disjoint`: byte-identical sibling indices sharing a by-hash target (with `fillers`: in a queue
     longer than download()'s window of 128 tasks, so that a sibling can be dequeued after another one has finished)"""
@@ -187,6 +235,7 @@ def run(chk, tier, rng):
         l1_one(chk, f"C15-{chk.seed}-{i}")
     for i in range(40 if tier == "quick" else 1000):
         shared_one(chk, f"C15s-{chk.seed}-{i}")
+        same_path_one(chk, f"C15p-{chk.seed}-{i}")
     for i in range(12 if tier == "quick" else 300):
         shared_one(chk, f"C15sl-{chk.seed}-{i}", fillers=random.Random(f"f{chk.seed}-{i}").randint(140, 220))
         chk.count("shared_target_scenarios_with_queue_over_128")
@@ -200,5 +249,14 @@ def run(chk, tier, rng):
 
 
 def replay(rep):
-    print(json.dumps(rep["replay"])[:1500])
+    r = rep["replay"]
+    if r.get("same_path") and "scenario_seed" in r:
+        from core.check import Check
+        chk = Check("C15", "quick", 0)
+        chk.known = []
+        same_path_one(chk, r["scenario_seed"])
+        for sig, path, msg, _ in chk.violations:
+            print(f"REPLAY VIOLATION {sig}: {msg}")
+        return 1 if chk.violations else 0
+    print(json.dumps(r)[:1500])
     return 0
